@@ -1016,7 +1016,7 @@ def check_keyed_references(chk, rng):
         lines = ["scn dref%d" % k, "opt start=1 end=%d" % (horizon + 1), "graph root",
                  "n 1 src script=" + ";".join("%d:%d" % x for x in sel),
                  "n 2 dsrc script=" + check_ops.dscript(h1), "n 3 dsrc script=" + check_ops.dscript(h2),
-                 "n 6 drec in=2", "n 7 drec in=3", "n 4 dite in=1,2,3", "n 5 drec in=4", "endgraph", "run"]
+                 "n 6 drec in=2", "n 7 drec in=3", "n 4 %s in=1,2,3" % ("dite" if k % 3 else "duref"), "n 5 drec in=4", "endgraph", "run"]
         scns.append("\n".join(lines))
     traces = hg.run_driver("engine", scns)
     items = []
